@@ -12,16 +12,18 @@ MANIFEST = dict(
          "compared with the extracted algorithm models and the extracted dense specification",
     text="Theorems (unbounded in column length, values and histories of column operations): sparse axpy = dense axpy and keeps the column "
          "sorted and zero-free (p prime); heap content lemmas (add / multiply-target / multiply-source / prune invariance / empty iff "
-         "content zero); lazy-vector content lemmas including 'clearing an absent entry is a no-op'; a lazy row swap followed by the "
-         "deferred reordering equals the eager swap; refuted-as-found witnesses for the three repaired defects.  The transcriptions are "
+         "content zero); lazy-vector content lemmas including 'clearing an absent entry is a no-op'; a lazy row swap equals the eager "
+         "swap and the deferred reordering is invisible; rows are the transpose; every Base_matrix operation on the algorithm model "
+         "commutes with the abstraction to the dense matrix (one step, any pending row permutation, any of the three representations); "
+         "refuted-as-found witnesses for three repaired defects.  The transcriptions are "
          "tied to the C++ by running identical operation sequences (<= 50 operations, coefficients 0, 1, -1, unreduced, cancelling; "
          "empty targets; self-addition; zero_entry on present and absent entries) through harness/c09_drv.cpp for 9 column types x "
          "{Z2, Z5, Z65521, ...} x row access {off, intrusive, set} x removable rows x map/vector container x swaps x compression and "
          "comparing the whole observable state after every operation.",
     note="Trusted: Coq kernel, extraction + OCaml driver, the hand transcription (validated by the differential run), g++/Boost. "
-         "Rows-as-transpose and compression = plain are compared per input only (kept as *_full definitions).  Entry-range operands "
-         "aliasing their target, row indices never announced to the swap dictionaries, inserted values that are multiples of p are "
-         "outside the exercised preconditions.",
+         "Compression = plain and the induction over whole histories (one matrix-wide invariant) are compared per input only (kept as "
+         "*_full definitions); every single operation is proved to commute with the abstraction.  Entry-range operands aliasing their "
+         "target and inserted values that are multiples of p are outside the exercised preconditions.",
     ref="design/C09.md")
 CORRESPONDENCE = ("coq/C09_Model.v (extracted: dense specification d_* and algorithm models a_*/k_*, driver ocaml/c09_oracle.ml) "
                   "vs harness/c09_drv.cpp on identical operation lines, full dump after every operation")
@@ -36,8 +38,7 @@ TRUSTED = [
 ASSUMPTIONS = [
     "the characteristic is prime (the zero-freeness theorems need it; the content theorems do not)",
     "inserted columns are strictly increasing in the row index and their values are not multiples of p (documented input format)",
-    "an entry range passed as source does not alias its target; swap_rows / zero_entry with swaps use row indices the matrix has been "
-    "told about (below the pivot of an inserted column, or below the size given to the constructor)",
+    "an entry range passed as source does not alias its target (plain matrix: same column; compressed: same class of identical columns)",
 ]
 
 COLTYPES = ["LIST", "SET", "HEAP", "VECTOR", "NAIVE_VECTOR", "SMALL_VECTOR", "UNORDERED_SET", "INTRUSIVE_LIST", "INTRUSIVE_SET"]
